@@ -65,6 +65,7 @@ def gen_case(rng):
         c["scheme"] = rng.choice(['backward', 'forward', 'centered'])
         c["keepaxis"] = rng.random() < 0.5
         c["default_axis"] = rng.random() < 0.15
+        c["again_after_relabel"] = rng.random() < 0.25
         if c["scheme"] == 'centered':
             c["keepaxis"] = False
             if sp["kinds"][k if not c["default_axis"] else nd - 1] == 's':
@@ -80,6 +81,15 @@ def gen_case(rng):
                 if dt == 'i':
                     v = v.astype(np.int64)
             sp["values"] = v
+        vv_ = np.asarray(sp["values"])
+        if rng.random() < 0.2 and vv_.dtype.kind in 'if' and not np.isnan(np.asarray(vv_, dtype=float)).any():
+            # unsigned data and signed data holding the lowest value of its type (their negation wraps around)
+            nt = rng.choice(['uint8', 'uint16', 'uint64', 'int8'])
+            fv_ = np.asarray(vv_, dtype=float)
+            sp["values"] = (fv_ % 256 - 128).astype('int8') if nt == 'int8' else (fv_ % 250).astype(nt)
+            if nt == 'int8' and sp["values"].size:
+                sp["values"].flat[rng.randrange(sp["values"].size)] = -128
+            c["narrow"] = nt
         if what == 'argties':
             c["what"] = rng.choice(['argaxis', 'argwhole'])
     return c
@@ -127,6 +137,15 @@ def check(case, ctx):
             label = "a.diff(axis=%r, n=%d, scheme=%r, keepaxis=%r)" % (axis, n, scheme, keep) + base
             fn = lambda: a.diff(axis=axis, n=n, scheme=scheme, keepaxis=keep)
         lab = m.labels[k]
+        if case.get("again_after_relabel") and sp["kinds"][k] != 's' and len(lab) >= 2 and list(lab) != list(lab)[::-1]:
+            # the same difference asked once before, then the axis relabelled in place (its own labels in reverse order, so that they fit
+            # the label type): the second answer goes by the labels the array has now
+            ctx.call("first " + label, fn, operands=(a,), ambient=False)
+            a.axes[k][:] = np.asarray(a.axes[k].values)[::-1].copy()
+            lab = list(lab)[::-1]
+            m = model.MA(v, m.dims, [lab if i == k else l for i, l in enumerate(m.labels)])
+            label = label + " [asked before; then the axis relabelled in place to %s]" % codec.short(lab, 60)
+            ctx.outcomes['diff-again-after-inplace-relabel'] += 1
         size = len(lab)
         e = np.diff(v, n=n, axis=k)
         labs = [list(l) for l in m.labels]
